@@ -481,4 +481,36 @@ theorem authorizeStmt_sound (u : User) (database : String) (ps : List ExecPriv)
         | tail _ hmem => exact ih h p hmem
       · simp [hz] at h
 
+/-! ## end to end on the regenerated table (non-vacuity of the hypotheses above) -/
+
+def basicCfg : Cfg := ⟨false, false, true, false⟩
+def readStmt : List Stmt := [⟨"SelectStatement", "", [⟨false, "", true, .read⟩]⟩]
+
+/-- no credentials on a wrapped route: 401 (instance of `decide_denies_unidentified`). -/
+example : decide demoWorld basicCfg "POST" "/write" ⟨"", "", .absent⟩ "db0" true [] = .d401 := by decide +kernel
+/-- read-only user: may query, may not write; write-only user: the reverse. -/
+example : decide demoWorld basicCfg "GET" "/query" ⟨"", "", .basic "ro" "p"⟩ "db0" true readStmt = .pass := by decide +kernel
+example : decide demoWorld basicCfg "POST" "/write" ⟨"", "", .basic "ro" "p"⟩ "db0" true [] = .d403 := by decide +kernel
+example : decide demoWorld basicCfg "POST" "/write" ⟨"", "", .basic "wo" "q"⟩ "db0" true [] = .pass := by decide +kernel
+example : decide demoWorld basicCfg "GET" "/query" ⟨"", "", .basic "wo" "q"⟩ "db0" true readStmt = .d403 := by decide +kernel
+/-- a user of another database is refused on this one. -/
+example : decide demoWorld basicCfg "POST" "/write" ⟨"", "", .basic "wo" "q"⟩ "db1" true [] = .d403 := by decide +kernel
+/-- control endpoints: administrators only. -/
+example : decide demoWorld basicCfg "POST" "/debug/ctrl" ⟨"", "", .basic "wo" "q"⟩ "" false [] = .d403 := by decide +kernel
+example : decide demoWorld basicCfg "POST" "/debug/ctrl" ⟨"", "", .basic "root" "r"⟩ "" false [] = .pass := by decide +kernel
+/-- the model reproduces the findings: these answer without any credentials. -/
+example : decide demoWorld basicCfg "POST" "/failpoint" ⟨"", "", .absent⟩ "" false [] = .pass := by decide +kernel
+example : decide demoWorld basicCfg "GET" "/debug/vars" ⟨"", "", .absent⟩ "" false [] = .pass := by decide +kernel
+example : decide demoWorld basicCfg "GET" "/debug/query" ⟨"", "", .absent⟩ "" false [] = .pass := by decide +kernel
+example : decide demoWorld basicCfg "GET" "/debug/pprof/" ⟨"", "", .absent⟩ "" false [] = .pass := by decide +kernel
+example : decide demoWorld ⟨false, false, true, true⟩ "GET" "/runtime_config" ⟨"", "", .absent⟩ "" false [] = .pass := by decide +kernel
+/-- … and this one acts for any authenticated user. -/
+example : decide demoWorld basicCfg "POST" "/api/v1/tsdb/x" ⟨"", "", .basic "ro" "p"⟩ "" false [] = .pass := by decide +kernel
+/-- unregistered path / method. -/
+example : decide demoWorld basicCfg "GET" "/nope" ⟨"", "", .absent⟩ "" false [] = .d404 := by decide +kernel
+example : decide demoWorld basicCfg "PUT" "/query" ⟨"", "", .absent⟩ "" false [] = .d405 := by decide +kernel
+/-- the logkeeper API exists only for that product type. -/
+example : decide demoWorld basicCfg "GET" "/api/v1/repository" ⟨"", "", .absent⟩ "" false [] = .d404 := by decide +kernel
+example : decide demoWorld ⟨true, false, true, false⟩ "GET" "/api/v1/repository" ⟨"", "", .absent⟩ "" false [] = .d401 := by decide +kernel
+
 end OG.C19
